@@ -949,6 +949,8 @@ class FuncEmitter:
     def decl(self, d):
         k = d['kind']
         if k == 'VarDecl':
+            if d.get('storageClass') in ('static', 'extern') or d.get('tls'):
+                abort('local variable with static/thread storage (state shared between calls and objects is outside the per-object contracts)', d)
             t = self.cls(d)
             name = d['name']
             init = d.get('inner', [])
